@@ -1,6 +1,7 @@
 (* Props/C12.v — C12 property theorems only. *)
 From Coq Require Import List String Arith Bool Sorted Permutation ZArith.
 From Verif Require Import Gen.StatusClass Gen.ReqSites Model.C12_Retry Model.C12_Backoff Proofs.C12 Proofs.C12b.
+From Verif Require Model.C01_Resume Proofs.C01r.
 Import ListNotations.
 
 (* whatever the registry answers (ANY reply sequence, any host set, any classification table): one logical
@@ -9,6 +10,15 @@ Theorem C12_attempts_bounded : forall fuel limit ignore s replies,
   List.length (fst (next_loop fuel limit ignore s replies)) <= S limit - retry s.
 Proof. exact next_loop_bound. Qed.
 Print Assumptions C12_attempts_bounded.
+
+(* a response body that ends early is requested again from where it stopped; for ANY registry (any replies to any
+   attempt, any Range), any expectation, any backoff count and any caller, the first request of a blob read and all
+   its re-requests together number at most retryLimit + 1 *)
+Theorem C12_resumed_read_attempts_bounded : forall (byte : Type) srv limit eager expect boff0 bufs r0 s0 l0 (out : list byte) r s' l,
+  C01_Resume.open srv limit expect boff0 = (r0, s0, l0) -> C01_Resume.drain srv limit eager s0 bufs = (out, r, s', l) ->
+  List.length l0 + List.length l <= limit + 1.
+Proof. exact C01r.resumed_read_attempts_bounded. Qed.
+Print Assumptions C12_resumed_read_attempts_bounded.
 
 (* the host loop terminates: retryLimit + 2 iterations always suffice *)
 Theorem C12_next_terminates : forall limit ignore nomirrors mirrors up replies,
